@@ -292,6 +292,29 @@ pub fn mutations(w: &World, subset: &[usize], honest: &Value) -> Vec<(String, Va
         x["signatures"][j][1][0] = to_jbytes(&w.outsider_vk);
         push(format!("signature[{j}].key:=unregistered key (signature kept)"), x);
     }
+    // designed: an unregistered key's valid signature rides on a registered party's position —
+    // the position is stated twice and every path node is supplied twice (one-signer aggregates)
+    if sigs.len() == 1 && indices.len() == 1 {
+        let used: Vec<u64> = sigs[0][0]["indexes"].as_array().map(|a| a.iter().filter_map(|i| i.as_u64()).collect()).unwrap_or_default();
+        if let Some(free) = (0..w.n as u64).find(|i| !used.contains(i)) {
+            for outsider_first in [false, true] {
+                let mut x = honest.clone();
+                let entry = json!([
+                    {"sigma": to_jbytes(&w.outsider_sigma), "indexes": [free], "signer_index": sigs[0][0]["signer_index"]},
+                    [to_jbytes(&w.outsider_vk), 1u64 << 40]
+                ]);
+                let sl = x["signatures"].as_array_mut().unwrap();
+                if outsider_first { sl.insert(0, entry) } else { sl.push(entry) }
+                x["batch_proof"]["indices"].as_array_mut().unwrap().push(indices[0].clone());
+                let doubled: Vec<Value> = values.iter().flat_map(|v| [v.clone(), v.clone()]).collect();
+                x["batch_proof"]["values"] = Value::Array(doubled);
+                push(
+                    format!("an unregistered key's valid signature added {} at the same stated position, every path node doubled", if outsider_first { "before" } else { "after" }),
+                    x,
+                );
+            }
+        }
+    }
     out
 }
 
